@@ -33,7 +33,7 @@ func Harness_C03_order() {
 	idn := 0
 	for r := 0; r < nrec; r++ {
 		n := 1
-		if r == 0 || thorough() {
+		if r == 0 {
 			n = 1 + nondetChoice("n", 2)
 		}
 		var raws []json.RawMessage
